@@ -1,3 +1,4 @@
+import KM.Gen.Pins
 import KM.Model.Conc
 /-! # C16 — concurrent requests are race-free and do not undo or double-spend
 
@@ -210,3 +211,22 @@ theorem c16_bootstrap_double_spend_witness :
 example : (mk 0 (.u2f 1 .disable)).user ≠ (mk 1 (.u2f 1 .delete)).user := by decide
 
 end KM.Conc
+
+-- BEGIN PINS (written by bin/update-pins.py)
+namespace KM.Conc
+
+/-- **Source pins** (regenerated): SHA-256 (first 80 bits) of the signature and body, whitespace-normalised,
+of the load/decide/save handlers `KM.Conc.decide` transcribes and the storage primitives it treats as atomic — equal to the values recorded when the model was last
+read against the code. Any edit, harmless or not, breaks this tie. -/
+theorem c16_source_pins :
+    KM.Gen.Pins.LoadUserProfile = "6c94018184c626ad2b47" ∧
+    KM.Gen.Pins.SaveUserProfile = "058f951a55bc49b13e72" ∧
+    KM.Gen.Pins.u2fTokenManagerHandler = "7509db22e477f6130434" ∧
+    KM.Gen.Pins.totpTokenManagerHandler = "c62269ed8bc05f5b35ab" ∧
+    KM.Gen.Pins.BootstrapOtpAuthHandler = "bd21ab21a6f2c34f27be" ∧
+    KM.Gen.Pins.userBootstrapOtpHash = "b6575c4fc52137bab8fb" ∧
+    KM.Gen.Pins.performStateCleanup = "6927c0c0ef032c2ee15c" := by
+  exact ⟨rfl, rfl, rfl, rfl, rfl, rfl, rfl⟩
+
+end KM.Conc
+-- END PINS
